@@ -22,6 +22,9 @@ var (
 	c19DialAddr string
 	c19ErrCode  uint16
 	c19Errs     int
+	c19DialConn net.Conn // when set, dials succeed with this connection
+	c19AckPub   [crypto.KeySize]byte
+	c19Acks     int
 )
 
 func c19ParseIP(s string) net.IP {
@@ -38,6 +41,9 @@ func c19Resolve(r *Resolver, ctx context.Context, domain string) (net.IP, error)
 func c19Dial(d *net.Dialer, ctx context.Context, network, addr string) (net.Conn, error) {
 	c19Dialed++
 	c19DialAddr = addr
+	if c19DialConn != nil {
+		return c19DialConn, nil
+	}
 	return nil, errors.New("harness: dial recorded")
 }
 
@@ -47,6 +53,8 @@ func (c19Writer) WriteStreamData(peerID identity.AgentID, streamID uint64, data 
 	return nil
 }
 func (c19Writer) WriteStreamOpenAck(peerID identity.AgentID, streamID uint64, requestID uint64, boundIP net.IP, boundPort uint16, k [crypto.KeySize]byte) error {
+	c19AckPub = k
+	c19Acks++
 	return nil
 }
 func (c19Writer) WriteStreamOpenErr(peerID identity.AgentID, streamID uint64, requestID uint64, errorCode uint16, message string) error {
